@@ -17,7 +17,9 @@ RULE = ("every Name.attr... chain / from-import / getattr into numpy, scipy, h5p
         "unguarded reference; distinct = distinct (module, attribute) pairs; plus an import smoke test of every module")
 LEVEL_TEXT = ("the property quantifies over a finite table (all references in the source x the installed "
               "environment); both tables are regenerated on every run and the theorem is re-checked by the kernel")
-LEVEL_NOTE = ("attribute access on instances is resolved only for the results of numpy array constructors "
+LEVEL_NOTE = ("syntax is checked against the declared minimum Python only as far as ast.parse(feature_version=...) models "
+              "grammar differences (e.g. the f-string '=' specifier is not seen); imports through importlib.import_module / "
+              "__import__ with a literal name are treated as imports; attribute access on instances is resolved only for the results of numpy array constructors "
               "(np.asarray(x).attr is checked against numpy.ndarray); other instance attributes are not typed. "
               "trusted: completeness of the AST walker (dynamic attribute access via computed strings is not seen), "
               "the hand-written list of names newer than the declared minimum versions; only the INSTALLED "
@@ -90,7 +92,13 @@ def unresolved(run):
             rel = os.path.relpath(path, fw.REPO)
             v = ex.FileRefs(rel)
             try:
-                v.visit(ast.parse(open(path).read()))
+                src_ = open(path).read()
+                msg = ex.syntax_check(src_, ex.declared_python(fw.REPO))
+                if msg:
+                    bad.append({"file": rel, "line": 0, "expr": "<syntax>",
+                                "why": "does not parse with the grammar of the declared minimum Python %s: %s"
+                                       % (ex.declared_python(fw.REPO), msg)})
+                v.visit(ast.parse(src_))
             except Exception as e:
                 bad.append({"file": rel, "line": 0, "expr": "<unparsable: %s>" % e})
                 continue
